@@ -831,19 +831,11 @@ func (g *Generator) getMethodPath(method *protogen.Method, basePath string, pack
 	// Try to get custom path from options
 	customPath := g.getCustomPath(method)
 
-	// If we have both base path and custom path, combine them
-	if basePath != "" && customPath != "" {
-		// Ensure proper path joining
-		basePath = strings.TrimSuffix(basePath, "/")
-		if !strings.HasPrefix(customPath, "/") {
-			customPath = "/" + customPath
-		}
-		return basePath + customPath
-	}
-
-	// If only custom path, use it
+	// With a custom path, join it with the base path exactly as the client, TS and
+	// OpenAPI generators do (leading slash guaranteed, one slash at the join), so the
+	// route registered here is the one those generators address.
 	if customPath != "" {
-		return customPath
+		return annotations.BuildHTTPPath(basePath, customPath)
 	}
 
 	// Generate default path
